@@ -309,6 +309,35 @@ class Gen:
                 ("forrange", "i", t, None, n, [
                     ("if", C(">", B("*", i, V("x", t)), L(7, t)), [("ret", i)], [], None)]),
                 ("ret", n)])])
+        # break / continue in every arm of an if / else-if / else-if / else chain inside range and while loops:
+        # the branch label of each depends on the block depth the compiler tracks per arm
+        for t in types[:2]:
+            n, i, tot, four = V("n", t), V("i", t), V("tot", t), L(4, t)
+            guard = ("if", C(">", n, four), [("ret", L(0, t))], [], None)
+            for arm in range(4):
+                for jump in ("break", "continue"):
+                    def blk(k, val):
+                        b = [("assign", "tot", B("+", tot, L(val, t)))]
+                        if k == arm:
+                            b.append((jump,))
+                        return b
+                    chain = ("if", C("==", i, L(0, t)), blk(0, 1),
+                             [(C("==", i, L(1, t)), blk(1, 2)), (C("==", i, L(2, t)), blk(2, 3))],
+                             blk(3, 4))
+                    self.add("loop-elif-jump", [fn("f", [("n", t)], t, [
+                        guard, ("decl", "tot", t, L(0, t), True),
+                        ("forrange", "i", t, None, n, [chain, ("assign", "tot", B("+", tot, L(10, t)))]),
+                        ("ret", tot)])])
+                    k = V("k", t)
+                    wchain = ("if", C("==", k, L(0, t)), blk(0, 1),
+                              [(C("==", k, L(1, t)), blk(1, 2)), (C("==", k, L(2, t)), blk(2, 3))],
+                              blk(3, 4))
+                    self.add("loop-elif-jump", [fn("f", [("n", t)], t, [
+                        guard, ("decl", "k", t, L(0, t), True), ("decl", "tot", t, L(0, t), True),
+                        ("while", C("<", k, n), [
+                            ("assign", "k", B("+", k, L(1, t))),
+                            wchain, ("assign", "tot", B("+", tot, L(10, t)))]),
+                        ("ret", tot)])])
         # a loop whose bound cannot be proven: must come out INCONCLUSIVE, never passed
         self.add("loop-unbounded", [fn("f", [("n", "i32")], "i32", [
             ("decl", "tot", "i32", L(0, "i32"), True),
